@@ -745,6 +745,7 @@ def _to_fraction(o):
 
 
 INT_LO, INT_HI = -64, 64
+TRUNC_BUDGET = 2
 CHOICE_CACHE = {}  # (kind, decision prefix) -> value picked there; reset per harness instance
 
 
@@ -755,9 +756,14 @@ def concretize_int(sym, trunc=False, lo=None, hi=None):
         return int(fr) if trunc else int(math.floor(fr))
     if trunc and isinstance(sym, Sym) and CTX is not None and not _integer_valued(sym):
         # truncating a genuinely real-valued symbol (a symbolic value pushed through an integer buffer or
-        # `int()`) would fork over every integer in range; none of the code paths the properties cover does
-        # this on symbolic data, so the path is stopped and the concrete replay decides what it means
-        raise Unsupported("truncation of a real-valued symbol to an integer")
+        # `int()`) forks over every feasible integer; none of the code paths the properties cover does this on
+        # symbolic data.  The first TRUNC_BUDGET such events of a path are explored faithfully (C truncation
+        # towards zero, values enumerated through solver models); after that the path is stopped and the
+        # concrete replay decides what it means (a whole array pushed through an integer buffer would otherwise
+        # multiply the paths without bound)
+        CTX.trunc_events = getattr(CTX, "trunc_events", 0) + 1
+        if CTX.trunc_events > TRUNC_BUDGET:
+            raise Unsupported("truncation of a real-valued symbol to an integer")
     t = z3.simplify(sym.t if isinstance(sym, Sym) else sym)
     if z3.is_rational_value(t):
         fr = fractions.Fraction(t.numerator_as_long(), t.denominator_as_long())
